@@ -334,6 +334,69 @@ func (t *Tree) XML(root string) string {
 	return b.String()
 }
 
+// XMLInterleaved renders the same document with the entries of every list
+// (and the items of every leaf-list) interleaved with their following
+// siblings, which RFC 7950 7.8.5 allows: the first entry at the list's own
+// position, one more after each later sibling, the rest at the end.
+func (t *Tree) XMLInterleaved(root string) string {
+	var b strings.Builder
+	fmt.Fprintf(&b, "<%s>", root)
+	t.xmlBodyInterleaved(&b)
+	fmt.Fprintf(&b, "</%s>", root)
+	return b.String()
+}
+
+func (t *Tree) xmlBodyInterleaved(b *strings.Builder) {
+	var pending [][]string // queues of rendered elements still to place
+	flushOne := func() {
+		for i := range pending {
+			if len(pending[i]) > 0 {
+				b.WriteString(pending[i][0])
+				pending[i] = pending[i][1:]
+			}
+		}
+	}
+	for _, c := range t.S.DataChildren() {
+		switch c.Kind {
+		case schema.Leaf:
+			if v, ok := t.Leaf[c.Name]; ok {
+				fmt.Fprintf(b, "<%s>%s</%s>", c.Name, xmlEsc(v), c.Name)
+				flushOne()
+			}
+		case schema.LeafList:
+			if vs, ok := t.LL[c.Name]; ok && len(vs) > 0 {
+				var q []string
+				for _, x := range vs {
+					q = append(q, fmt.Sprintf("<%s>%s</%s>", c.Name, xmlEsc(x), c.Name))
+				}
+				b.WriteString(q[0])
+				flushOne()
+				pending = append(pending, q[1:])
+			}
+		case schema.Container:
+			if v, ok := t.Cont[c.Name]; ok {
+				b.WriteString(v.XMLInterleaved(c.Name))
+				flushOne()
+			}
+		case schema.List:
+			if v, ok := t.List[c.Name]; ok && len(v.Entries) > 0 {
+				var q []string
+				for _, e := range v.Entries {
+					q = append(q, e.XMLInterleaved(c.Name))
+				}
+				b.WriteString(q[0])
+				flushOne()
+				pending = append(pending, q[1:])
+			}
+		}
+	}
+	for _, q := range pending {
+		for _, x := range q {
+			b.WriteString(x)
+		}
+	}
+}
+
 func (t *Tree) xmlBody(b *strings.Builder) {
 	for _, c := range t.S.DataChildren() {
 		switch c.Kind {
